@@ -223,9 +223,25 @@ def feasible_path(prog: Program, f: Func, cfg: CFG, dsts, world: Dict[str, bool]
             elif isinstance(a, ast.AnnAssign) and isinstance(a.target, ast.Name) and a.value is not None:
                 tgt, val = a.target.id, a.value
             stored = _stored_names(a.target) if isinstance(a, (ast.For, ast.AsyncFor)) else ([a.name] if isinstance(a, ast.ExceptHandler) and a.name else _stored_names(a) if isinstance(a, ast.stmt) and not isinstance(a, (ast.For, ast.AsyncFor, ast.While, ast.If, ast.With, ast.Try)) else _stored_names(a) if isinstance(a, ast.withitem) else [])
+            # a method called on a name (`segments.append(s)`) may change what its truth value was known to be
+            if isinstance(a, ast.Expr) and isinstance(a.value, ast.Call) and isinstance(a.value.func, ast.Attribute) and isinstance(a.value.func.value, ast.Name) \
+                    and a.value.func.value.id in st.env:
+                st = st.copy()
+                nm_ = a.value.func.value.id
+                st.env.pop(nm_, None)
+                st.ver[nm_] = st.ver.get(nm_, 0) + 1
             if stored or tgt:
                 st = st.copy()
-                if tgt is not None and isinstance(val, (ast.BoolOp, ast.UnaryOp, ast.Compare, ast.Call, ast.Name, ast.IfExp, ast.Constant)) and (not isinstance(val, ast.Constant) or isinstance(val.value, bool)):
+                if tgt is not None and (isinstance(val, (ast.List, ast.Tuple, ast.Set, ast.Dict)) or (isinstance(val, ast.Constant) and not isinstance(val.value, bool))):
+                    # the truth value of a display / constant is known: `segments = []` makes `not segments` hold
+                    if isinstance(val, ast.Constant):
+                        truth = bool(val.value)
+                    else:
+                        truth = bool(val.keys if isinstance(val, ast.Dict) else val.elts)
+                    st.ver[tgt] = st.ver.get(tgt, 0) + 1
+                    st.env[tgt] = ("and", []) if truth else ("or", [])
+                    stored = [x for x in stored if x != tgt]
+                elif tgt is not None and isinstance(val, (ast.BoolOp, ast.UnaryOp, ast.Compare, ast.Call, ast.Name, ast.IfExp, ast.Constant)) and (not isinstance(val, ast.Constant) or isinstance(val.value, bool)):
                     fm = _form_env(val, st, atom_name, atoms)
                     st.ver[tgt] = st.ver.get(tgt, 0) + 1
                     st.env[tgt] = fm
